@@ -34,6 +34,9 @@ def tolerated(case, i, impl, model):
     return False
 
 
+_N = [0]
+
+
 def gen_case(rng, per):
     ops = [["load_predefined"]] + _money.setup(CODES)
     late = []
@@ -68,6 +71,17 @@ def gen_case(rng, per):
         name = f"r{i}"
         ops.append(["rate_new", name, a, rng.choice(["int:1", "int:100"]), b, _money.ta_token(rng, v), _money.MODE])
         rates[name] = (a, b)
+    # every second case: a money converter that knows rates between all the
+    # currencies is ACTIVE while the explicit rates are applied; applying a
+    # given rate is not a conversion, the converter must not take part
+    _N[0] += 1
+    if _N[0] % 2 == 0:
+        base = rng.choice(CODES)
+        ops.append(["mc_new", "cv", base])
+        ops.append(["mc_update", "cv", "none",
+                    ";".join(f"{c},dec:{rat(Fraction(rng.randint(11, 999), 100))},int:1"
+                             for c in CODES if c != base), _money.MODE])
+        ops.append(["mc_stack", "enter", "cv"])
     nsetup = len(ops)
     declared_now = {o[2].replace(",", "/") for o in ops if o[0] == "derive_unit"}
     for step in range(per):
